@@ -123,6 +123,25 @@ func genC15(tier string, rng *rand.Rand, shard, nshards int, emit emitter) {
 			}
 		}
 	}
+	for i := 0; i < count/40+4; i++ {
+		if !mine(i, shard, nshards) {
+			continue
+		}
+		// FC16 whose register values spell a complete read request, cut right in front of them (and elsewhere)
+		inner := mbapFrame(tidv(rng), u8(rng), validRequestPDU(rng, []int{3, 4, 1, 6}[rng.Intn(4)]))
+		if len(inner)%2 == 1 {
+			inner = append(inner, 0)
+		}
+		a := u16(rng)
+		pdu := append([]byte{16, byte(a >> 8), byte(a), 0, byte(len(inner) / 2), byte(len(inner))}, inner...)
+		outer := mbapFrame(tidv(rng), u8(rng), pdu)
+		next := serverFrame(rng, 0)
+		stream := append(append([]byte{}, outer...), next...)
+		h := handlerKinds[rng.Intn(len(handlerKinds))]
+		for _, cuts := range [][]int{{13}, {13, len(outer)}, {12}, {8, 13}, {13, 13 + len(inner)/2}} {
+			emit(fmt.Sprintf("asm %s %s", h, chunksToken(segment(stream, cuts))))
+		}
+	}
 	for i := 0; i < count; i++ {
 		if !mine(i, shard, nshards) {
 			continue
@@ -215,6 +234,26 @@ func genC16(tier string, rng *rand.Rand, shard, nshards int, emit emitter) {
 	}
 	// requests that arrive in pieces, pipelined requests (judged like C15: the same single reply, nothing for a part)
 	genC15("sample", rng, shard, nshards, emit)
+	{
+		k := 0
+		for _, fc := range []int{1, 2, 3, 4, 5, 6} {
+			for plen := 2; plen <= 4; plen++ {
+				for _, ftid := range []int{1, 5, 100, 125, 0xFF00, 0x0100} {
+					k++
+					if !mine(k, shard, nshards) {
+						continue
+					}
+					// a truncated request (header consistent) followed by a frame whose first bytes would pass as a quantity
+					a := u16(rng)
+					short := mbapFrame(tidv(rng), u8(rng), []byte{byte(fc), byte(a >> 8), byte(a), 0, 1}[:plen])
+					follow := mbapFrame(ftid, u8(rng), validRequestPDU(rng, 3))
+					hh := []string{"dev", "typed", "generic"}[k%3]
+					emit(fmt.Sprintf("asm %s %s", hh, hx(append(append([]byte{}, short...), follow...))))
+					emit(fmt.Sprintf("asm %s %s|%s", hh, hx(short), hx(follow)))
+				}
+			}
+		}
+	}
 	i := 0
 	// every function code 1..127 once with each handler
 	for fc := 1; fc <= 255; fc++ {
